@@ -1,7 +1,7 @@
 (** C14 — property theorems (statements only; proofs in Proofs_C14.v). *)
 From Coq Require Import ZArith List.
 From AwkV Require Import Base Layout.
-From AwkBuilder Require Import Builder Spec GbLemmas Invariant Proofs_C14.
+From AwkBuilder Require Import Builder Spec GbLemmas Invariant Phys PhysSeq Proofs_C14.
 Import ListNotations.
 Open Scope Z_scope.
 
@@ -16,6 +16,17 @@ Theorem snapshot_stable_values :
   exists later, fst (run_session o ab_init 0 (cs1 ++ cs2)) = fst (run_session o ab_init 0 cs1) ++ later.
 Proof. exact Proofs_C14.snapshot_stable_values. Qed.
 Print Assumptions snapshot_stable_values.
+
+(* physical half: [bufs] = the GrowableBuffers a state holds (a snapshot shares exactly these), [gid] = allocation
+   identity, [prun] = a session with the fresh allocations of every command numbered *)
+Theorem snapshot_immutable :
+  forall o cs1 cs2,
+  let st1 := prun o pinit cs1 in
+  let st2 := prun o st1 cs2 in
+  forall g g', In g (bufs (fst st1)) -> In g' (bufs (fst st2)) -> gid g' = gid g ->
+    glen g <= glen g' /\ take (glen g) (gdata g') = gb_list g.
+Proof. exact PhysSeq.snapshot_immutable. Qed.
+Print Assumptions snapshot_immutable.
 
 Theorem equal_states_equal_snapshots :
   forall b1 b2, same b1 b2 -> snapshot b1 = snapshot b2.
